@@ -4,9 +4,10 @@ Statements only (proofs by reference to Lemmas/Merge.lean) and non-vacuity examp
 
 Model: Model/Merge.lean (`MergeCells`, `Table.merge_cells` with fixes/C12-merge-placeholders.patch,
 `Cell._set_merge`, `merge_ranges`, `recalculate_merged_cells`, `calculate_merge_cell_ranges`,
-`Table.__init__`) on top of the grid model of C03.
+`Table.__init__`, and `Table._move_merges` of fixes/C12-merge-map-shift.patch at the end of
+`add_row` / `add_column` / `delete_row` / `delete_column`) on top of the grid model of C03.
 -/
-import NumbersModel.Lemmas.Merge
+import NumbersModel.Lemmas.MergeEdit
 namespace NumbersModel.Props.C12
 open NumbersModel NumbersModel.Grid NumbersModel.Merge
 
@@ -104,33 +105,170 @@ theorem consistent_write (s : MState) (hs : Consistent s) (r c : Int) (v : Nat)
     (s' : MState) (h : mwrite s r c v = .ok s') : Consistent s' ∧ s'.mmap = s.mmap :=
   safe_edit_consistent s hs (.write r c v) hnot s' h
 
-/-- **Row / column edits after the rectangles** (`SafeEdit`: insertion or deletion index strictly
-    greater than every rectangle's last row / column; appending is always such an edit) keep the table
-    consistent, hence the open and the reloaded picture equal.
+/-- **Row / column edits, anywhere** (before, inside, overlapping or after the rectangles).  For a
+    consistent table and any `add_row` / `add_column` / `delete_row` / `delete_column`:
+    * if the arguments are in range (`Grid.Valid`; and a `default` fill stays inside the library's
+      row / column limits, `Grid.FillOK`) the edit succeeds;
+    * whenever it succeeds the table is consistent again (so `merge_picture` describes it and
+      `open_eq_reloaded` applies), its rectangles are exactly `shiftRects op` of the old ones - the
+      specification in Lemmas/MergeEdit.lean: a rectangle at or after the insertion / deletion point
+      moves with its cells, one before it is untouched, an insertion strictly inside grows it, a
+      deletion overlapping it shrinks it (the next surviving row / column becomes the anchor's), and a
+      rectangle deleted entirely or reduced to a single cell stops being a merge - and the dimensions
+      are the expected ones. -/
+theorem consistent_edit (s : MState) (hs : Consistent s) (op : Grid.Op Nat) (hst : IsStructural op) :
+    (Grid.Valid s.grid (liftOp s op) → Grid.FillOK s.grid (liftOp s op) → ∃ s', mstep s op = .ok s') ∧
+    (∀ s', mstep s op = .ok s' → Consistent s' ∧
+      rectsOf s'.mmap = shiftRects op s.grid.numRows s.grid.numCols (rectsOf s.mmap) ∧
+      (s'.grid.numRows, s'.grid.numCols) = dimsAfter op s.grid.numRows s.grid.numCols) :=
+  ⟨(edit_consistent_full s hs op hst).1, fun s' h =>
+    let r := (edit_consistent_full s hs op hst).2 s' h; ⟨r.1, r.2.1, r.2.2.1⟩⟩
 
-    `_partial`: the full statement of the property — the same for edits *before or inside* a rectangle —
-    is false for the library (the merge map is not shifted; known finding `merge-map-not-shifted`, see the
-    counter-example below), so it cannot be proved for a faithful model. -/
-theorem consistent_safe_edit_partial (s : MState) (hs : Consistent s) (op : Grid.Op Nat) (hsafe : SafeEdit s op)
-    (s' : MState) (h : mstep s op = .ok s') : Consistent s' ∧ s'.mmap = s.mmap :=
-  safe_edit_consistent s hs op hsafe s' h
+/-- **... and the values.**  After a row / column edit the cells are those of the plain grid with the same
+    edit applied (C03's `specStep` on the grid of cells: surviving cells at their new positions, new cells
+    empty or holding the `default`), except that every non-anchor cell of a (new) rectangle is empty
+    (`Covered`): cells outside the rectangles are untouched, an anchor that survives keeps its value, new
+    cells inside a grown rectangle are placeholders whatever the `default`. -/
+theorem edit_values (s : MState) (hs : Consistent s) (op : Grid.Op Nat) (hst : IsStructural op)
+    (s' : MState) (h : mstep s op = .ok s') (a b : Nat) (y : MCell)
+    (hy : gget (Grid.specStep emptyCell (Grid.abs s.grid) (liftOp s op)).cells a b = some y) :
+    ∃ cell', cellAt s'.grid.data a b = some cell' ∧
+      (Covered (rectsOf s'.mmap) ((a : Int), (b : Int)) → cell'.val.val = 0) ∧
+      (¬ Covered (rectsOf s'.mmap) ((a : Int), (b : Int)) → cell'.val.val = y.val) :=
+  ((edit_consistent_full s hs op hst).2 s' h).2.2.2 a b y hy
+
+/-- the code's rectangle arithmetic (`_move_merges`: `count > 0` inserts, otherwise deletes `-count`,
+    written with `max`) is the specification, for insertions and for deletions. -/
+theorem move_arithmetic_is_spec (rows : Bool) (start n : Int) (hn : 0 ≤ n) (q : Rct) :
+    shiftRect rows start n q = shiftRectSpec rows true start n q ∧
+    shiftRect rows start (-n) q = shiftRectSpec rows false start n q :=
+  ⟨shiftRect_ins rows start n hn q, shiftRect_del rows start n hn q⟩
+
+/-- the specification keeps what `Consistent` needs: the transformed rectangles lie in the new table
+    and stay pairwise disjoint (for the arguments of an accepted edit, `EditOK`). -/
+theorem shift_spec_sound {rows ins : Bool} {start n nr nc nr' nc' : Int} (he : EditOK rows ins start n nr nc nr' nc')
+    (qs : List Rct) (hin : ∀ q ∈ qs, q.InTable nr nc) (hd : qs.Pairwise Rct.Disjoint) :
+    (∀ q' ∈ qs.filterMap (shiftRectSpec rows ins start n), q'.InTable nr' nc') ∧
+    (qs.filterMap (shiftRectSpec rows ins start n)).Pairwise Rct.Disjoint := by
+  refine ⟨?_, ?_⟩
+  · intro q' hq'
+    obtain ⟨q, hq, hqq⟩ := List.mem_filterMap.mp hq'
+    exact spec_inTable he (hin q hq) hqq
+  · have hp : qs.Pairwise (fun a b => a.Nonempty ∧ b.Nonempty ∧ Rct.Disjoint a b) :=
+      hd.imp_of_mem (fun ha hb hd => ⟨(hin _ ha).nonempty, (hin _ hb).nonempty, hd⟩)
+    exact List.Pairwise.filterMap _ (fun a a' ⟨x, y, z⟩ b hb b' hb' => spec_disjoint he.n0 x y z hb hb') hp
+
+/-- **The specification, cell by cell (insertion).**  A rectangle is never dropped; an old cell lies in the
+    rectangle iff its new position (indices from `start` on move by `n`) lies in the new rectangle - rectangles
+    move with their cells, rectangles before the insertion are untouched; and a *new* cell lies in the new
+    rectangle iff the insertion was strictly inside the old one (after its first, at or before its last
+    row / column) and the cell is within the rectangle's other axis - the rectangle grows. -/
+theorem shift_spec_insert_cells (rows : Bool) (start n : Int) (hn : 0 ≤ n) (q : Rct) (hq : q.Nonempty) :
+    ∃ q', shiftRectSpec rows true start n q = some q' ∧
+      (∀ k : Key, q.has k = true ↔ q'.has (moveKey rows (fun i => if start ≤ i then i + n else i) k) = true) ∧
+      (∀ k : Key, start ≤ axisOf rows k → axisOf rows k < start + n →
+        (q'.has k = true ↔ ((if rows then q.r0 else q.c0) < start ∧ start ≤ (if rows then q.r1 else q.c1) ∧
+          (if rows then q.c0 ≤ k.2 ∧ k.2 ≤ q.c1 else q.r0 ≤ k.1 ∧ k.1 ≤ q.r1)))) :=
+  spec_ins_cells rows start n hn q hq
+
+/-- **The specification, cell by cell (deletion).**  If the rectangle remains, a surviving old cell (row /
+    column index outside `start .. start+n-1`) lies in it iff its new position (indices from `start + n` on move
+    down by `n`) lies in the new rectangle - it moves with its cells and shrinks by the deleted rows / columns;
+    if it ceases to be a merge, it lost a row / column and at most one of its cells survives. -/
+theorem shift_spec_delete_cells (rows : Bool) (start n : Int) (hn : 0 ≤ n) (q : Rct) (hq : q.Nonempty) :
+    match shiftRectSpec rows false start n q with
+    | some q' => ∀ k : Key, (axisOf rows k < start ∨ start + n ≤ axisOf rows k) →
+        (q.has k = true ↔ q'.has (moveKey rows (fun i => if start + n ≤ i then i - n else i) k) = true)
+    | none =>
+      (∃ i, (if rows then q.r0 else q.c0) ≤ i ∧ i ≤ (if rows then q.r1 else q.c1) ∧ start ≤ i ∧ i < start + n) ∧
+      (∀ k k' : Key, (axisOf rows k < start ∨ start + n ≤ axisOf rows k) →
+        (axisOf rows k' < start ∨ start + n ≤ axisOf rows k') → q.has k = true → q.has k' = true → k = k') :=
+  spec_del_cells rows start n hn q hq
+
+/-- **Histories.**  Every table reachable from a new table of any shape by any finite history of merges
+    (in-table, disjoint from the existing rectangles), writes not aimed at a placeholder, and row /
+    column insertions / deletions anywhere is consistent (induction over the history) ... -/
+theorem history_consistent (s : MState) (h : Reachable s) : Consistent s := reachable_consistent h
+
+/-- ... hence the open document and the reopened file show the same picture: every cell (class, value,
+    `is_merged`, `size`, `rect`, position) and the merge map entries, so also `merge_ranges`. -/
+theorem history_open_eq_reloaded (s : MState) (h : Reachable s) (hnr : 0 < s.grid.numRows)
+    (hr : s.grid.numRows < 65536) (hc : s.grid.numCols < 65536) :
+    ∃ s', reload s = .ok s' ∧ s'.grid = s.grid ∧ ∀ k, s'.mmap.get k = s.mmap.get k :=
+  reload_consistent s (reachable_consistent h) hnr hr hc
 
 /-! ### non-vacuity and witnesses -/
 
-/-- after merging B2:C3 on a 5×4 table, appending rows and deleting row 4 are `SafeEdit`s, inserting at
-    the top is not. -/
-example : (mergeOne (minit 5 4) 1 1 2 2).map (fun s => (rectsOf s.mmap, s.grid.numRows)) = .ok ([(1, 1, 2, 2)], 5) := by
-  decide +kernel
-example (s : MState) (h : rectsOf s.mmap = [(1, 1, 2, 2)]) (hn : s.grid.numRows = 5) :
-    SafeEdit s (.addRow 2 none (some 3)) ∧ SafeEdit s (.delRow 1 (some 3)) ∧ ¬ SafeEdit s (.addRow 1 (some 0) none) := by
-  simp only [SafeEdit, h, hn, Grid.startNat, List.mem_singleton, forall_eq]
-  decide
+/-- the specification on B3:C4 (rows 2..3, columns 1..2) of a 6×4 table: an insertion before moves it,
+    one strictly inside grows it, one after leaves it; a deletion overlapping it shrinks it (also when
+    the anchor row goes), a deletion of its columns down to one cell or of all its rows ends the merge. -/
+example : shiftRects (.addRow 1 (some 0) none) 6 4 [(2, 1, 3, 2)] = [(3, 1, 4, 2)] := by decide
+example : shiftRects (.addRow 1 (some 2) none) 6 4 [(2, 1, 3, 2)] = [(3, 1, 4, 2)] := by decide
+example : shiftRects (.addRow 2 (some 3) (some 7)) 6 4 [(2, 1, 3, 2)] = [(2, 1, 5, 2)] := by decide
+example : shiftRects (.addRow 2 none none) 6 4 [(2, 1, 3, 2)] = [(2, 1, 3, 2)] := by decide
+example : shiftRects (.addCol 1 (some 2) none) 6 4 [(2, 1, 3, 2)] = [(2, 1, 3, 3)] := by decide
+example : shiftRects (.delRow 1 (some 2)) 6 4 [(2, 1, 3, 2)] = [(2, 1, 2, 2)] := by decide
+example : shiftRects (.delRow 2 (some 1)) 6 4 [(2, 1, 3, 2)] = [(1, 1, 1, 2)] := by decide
+example : shiftRects (.delRow 2 (some 2)) 6 4 [(2, 1, 3, 2)] = [] := by decide
+example : shiftRects (.delCol 1 (some 0)) 6 4 [(2, 1, 3, 2)] = [(2, 0, 3, 1)] := by decide
+example : shiftRects (.delCol 3 none) 6 4 [(2, 1, 3, 2), (0, 0, 0, 0)] = [(0, 0, 0, 0)] := by decide
+example : shiftRects (.delCol 1 (some 2)) 6 4 [(2, 1, 2, 2), (0, 0, 0, 0)] = [(0, 0, 0, 0)] := by decide
 
-/-- the known defect "merge map not shifted": merge B3:C4 on a 6×4 table, insert a row at the top.  The open
+/-- (for the examples below) B3:C4 with a value in its anchor on a 6×4 table, one structural edit, save +
+    reopen: the rectangles of the open table followed by `merge_ranges` of the reopened one, and whether the
+    reopened grid equals the open one. -/
+def editThenReload (op : Grid.Op Nat) : PyM (List Rct × Bool) := do
+  let s1 ← mwrite (minit 6 4) 2 1 5
+  let s2 ← mergeOne s1 2 1 3 2
+  let a ← mstep s2 op
+  let a' ← reload a
+  let ra ← mergeRanges a'
+  pure (rectsOf a.mmap ++ ra, a'.grid == a.grid)
+
+/-- the model on that table: insertion before, insertion inside (with a default fill), deletion
+    overlapping the rectangle (the anchor row goes), deletion leaving a single cell: the open table
+    lists the specified rectangle, and save + reopen reproduces it and the whole grid. -/
+example : editThenReload (.addRow 1 (some 0) none) = .ok ([(3, 1, 4, 2), (3, 1, 4, 2)], true) := by decide +kernel
+example : editThenReload (.addRow 2 (some 3) (some 7)) = .ok ([(2, 1, 5, 2), (2, 1, 5, 2)], true) := by decide +kernel
+example : editThenReload (.delRow 1 (some 2)) = .ok ([(2, 1, 2, 2), (2, 1, 2, 2)], true) := by decide +kernel
+example : editThenReload (.delCol 2 (some 0)) = .ok ([(2, 0, 3, 0), (2, 0, 3, 0)], true) := by decide +kernel
+example : editThenReload (.delRow 1 (some 3)) = .ok ([(2, 1, 2, 2), (2, 1, 2, 2)], true) := by decide +kernel
+
+/-- a history satisfying the hypotheses of `history_open_eq_reloaded`: merge B3:C4 on 6×4, write the
+    anchor, insert two rows inside the rectangle, delete its first column. -/
+example : ∃ s, Reachable s ∧ rectsOf s.mmap = [(2, 1, 5, 1)] ∧ s.grid.numRows = 8 ∧ s.grid.numCols = 3 := by
+  obtain ⟨s1, h1, c1, r1, n1, m1, _⟩ := merge_step (minit 6 4) (consistent_init 6 4) 2 1 3 2
+    (by simp [Rct.InTable, Rct.r0, Rct.r1, Rct.c0, Rct.c1, minit, Grid.init])
+    (by intro p hp; simp [minit, rectsOf, anchorsOf] at hp)
+  have R1 : Reachable s1 := .step (.init 6 4) (.merge 2 1 3 2
+    (by simp [Rct.InTable, Rct.r0, Rct.r1, Rct.c0, Rct.c1, minit, Grid.init])
+    (by intro p hp; simp [minit, rectsOf, anchorsOf] at hp) h1)
+  have d1 : s1.grid.numRows = 6 ∧ s1.grid.numCols = 4 := by rw [n1, m1]; simp [minit, Grid.init]
+  have e1 : rectsOf s1.mmap = [(2, 1, 3, 2)] := by rw [r1]; simp [minit, rectsOf, anchorsOf]
+  obtain ⟨s2, h2⟩ := (consistent_edit s1 c1 (.addRow 2 (some 3) none) trivial).1
+    (by simp [liftOp, Grid.Valid, d1.1]) (by simp [liftOp, Grid.FillOK])
+  obtain ⟨c2, r2, n2⟩ := (consistent_edit s1 c1 (.addRow 2 (some 3) none) trivial).2 s2 h2
+  have R2 : Reachable s2 := .step R1 (.edit (.addRow 2 (some 3) none) trivial h2)
+  rw [e1, d1.1, d1.2] at r2
+  rw [d1.1, d1.2] at n2
+  have d2 : s2.grid.numRows = 8 ∧ s2.grid.numCols = 4 := by
+    have := n2; simp only [dimsAfter, Prod.mk.injEq] at this; omega
+  obtain ⟨s3, h3⟩ := (consistent_edit s2 c2 (.delCol 1 (some 1)) trivial).1
+    (by simp [liftOp, Grid.Valid, d2.2]) (by simp [liftOp, Grid.FillOK])
+  obtain ⟨c3, r3, n3⟩ := (consistent_edit s2 c2 (.delCol 1 (some 1)) trivial).2 s3 h3
+  rw [r2, d2.1, d2.2] at r3
+  rw [d2.1, d2.2] at n3
+  refine ⟨s3, .step R2 (.edit (.delCol 1 (some 1)) trivial h3), ?_, ?_, ?_⟩
+  · rw [r3]; decide
+  · have := n3; simp only [dimsAfter, Prod.mk.injEq] at this; omega
+  · have := n3; simp only [dimsAfter, Prod.mk.injEq] at this; omega
+
+/-- the defect repaired by fixes/C12-merge-map-shift.patch ("merge map not shifted"), on the edits
+    without `_move_merges` (`mstepPinned`): merge B3:C4 on a 6×4 table, insert a row at the top.  The open
     table lists B4:C5, the reloaded one B3:C4. -/
 example :
     (do let s1 ← mergeOne (minit 6 4) 2 1 3 2
-        let s2 ← mstep s1 (.addRow 1 (some 0) none)
+        let s2 ← mstepPinned s1 (.addRow 1 (some 0) none)
         let s3 ← reload s2
         let a ← mergeRanges s2
         let b ← mergeRanges s3
